@@ -43,8 +43,19 @@ typedef struct {
 	int any_known;                         /* a known element occurred */
 	int last_seen;                         /* a LAST element occurred */
 	size_t pos;                            /* elements consumed */
-	int rejected;
+	int rejected;                          /* 0, or the SPEC_SCH_REJ_* reason of the first violation */
 } spec_schema_state;
+
+/* reasons */
+#define SPEC_SCH_REJ_UNKNOWN_CRITICAL 1
+#define SPEC_SCH_REJ_REPEATED         2
+#define SPEC_SCH_REJ_EXCLUSIVE        3
+#define SPEC_SCH_REJ_ORDER            4
+#define SPEC_SCH_REJ_FIRST            5
+#define SPEC_SCH_REJ_LAST             6
+#define SPEC_SCH_REJ_VALUE            7
+#define SPEC_SCH_REJ_MANDATORY        8
+#define SPEC_SCH_REJ_GROUP            9
 
 static void spec_schema_init(spec_schema_state *s, const spec_schema_entry *t, size_t n) {
 	size_t j;
@@ -68,17 +79,17 @@ static int spec_schema_step(spec_schema_state *s, unsigned tag, int non_critical
 	if (s->rejected) return -1;
 	j = spec_schema_find(s, tag);
 	if (j < 0) {                                           /* unknown element */
-		if (!non_critical) s->rejected = 1;
+		if (!non_critical) s->rejected = SPEC_SCH_REJ_UNKNOWN_CRITICAL;
 		return -1;                                         /* non-critical: skipped, state untouched */
 	}
 	f = s->t[j].flags;
-	if (!s->t[j].multiple && s->count[j] > 0) { s->rejected = 1; return -1; }               /* single-valued repeated */
-	if ((f & SPEC_SCH_MOST_ONE_G0) && s->most_one[0]) { s->rejected = 1; return -1; }       /* alternatives combined */
-	if ((f & SPEC_SCH_MOST_ONE_G1) && s->most_one[1]) { s->rejected = 1; return -1; }
-	if ((f & SPEC_SCH_FIXED_ORDER) && s->have_order && (size_t)j < s->max_order) { s->rejected = 1; return -1; }
-	if ((f & SPEC_SCH_FIRST) && s->any_known) { s->rejected = 1; return -1; }
-	if (s->last_seen) { s->rejected = 1; return -1; }
-	if (!value_ok) { s->rejected = 1; return -1; }
+	if (!s->t[j].multiple && s->count[j] > 0) { s->rejected = SPEC_SCH_REJ_REPEATED; return -1; }               /* single-valued repeated */
+	if ((f & SPEC_SCH_MOST_ONE_G0) && s->most_one[0]) { s->rejected = SPEC_SCH_REJ_EXCLUSIVE; return -1; }       /* alternatives combined */
+	if ((f & SPEC_SCH_MOST_ONE_G1) && s->most_one[1]) { s->rejected = SPEC_SCH_REJ_EXCLUSIVE; return -1; }
+	if ((f & SPEC_SCH_FIXED_ORDER) && s->have_order && (size_t)j < s->max_order) { s->rejected = SPEC_SCH_REJ_ORDER; return -1; }
+	if ((f & SPEC_SCH_FIRST) && s->any_known) { s->rejected = SPEC_SCH_REJ_FIRST; return -1; }
+	if (s->last_seen) { s->rejected = SPEC_SCH_REJ_LAST; return -1; }
+	if (!value_ok) { s->rejected = SPEC_SCH_REJ_VALUE; return -1; }
 	s->count[j]++; s->last_pos[j] = pos;
 	if (f & SPEC_SCH_MOST_ONE_G0) s->most_one[0] = 1;
 	if (f & SPEC_SCH_MOST_ONE_G1) s->most_one[1] = 1;
@@ -90,15 +101,17 @@ static int spec_schema_step(spec_schema_state *s, unsigned tag, int non_critical
 	return j;
 }
 
-static int spec_schema_accepts(const spec_schema_state *s) {
+/* 0 = the structure satisfies the schema, else the reason of the first violation (end conditions last) */
+static int spec_schema_verdict(const spec_schema_state *s) {
 	size_t j;
-	if (s->rejected) return 0;
+	if (s->rejected) return s->rejected;
 	for (j = 0; j < s->n && j < SPEC_SCHEMA_MAXT; j++) {
 		unsigned f = s->t[j].flags;
-		if ((f & SPEC_SCH_MANDATORY) && s->count[j] == 0) return 0;
-		if ((f & SPEC_SCH_LEAST_ONE_G0) && !s->least_one[0]) return 0;
-		if ((f & SPEC_SCH_LEAST_ONE_G1) && !s->least_one[1]) return 0;
+		if ((f & SPEC_SCH_MANDATORY) && s->count[j] == 0) return SPEC_SCH_REJ_MANDATORY;
+		if ((f & SPEC_SCH_LEAST_ONE_G0) && !s->least_one[0]) return SPEC_SCH_REJ_GROUP;
+		if ((f & SPEC_SCH_LEAST_ONE_G1) && !s->least_one[1]) return SPEC_SCH_REJ_GROUP;
 	}
-	return 1;
+	return 0;
 }
+static int spec_schema_accepts(const spec_schema_state *s) { return spec_schema_verdict(s) == 0; }
 #endif
